@@ -334,7 +334,8 @@ func (f *FibStrategyHashTable) UpdateBatch(fn func(b FibBatch)) {
 	verifBeforeWLock(&f.fibStrategyRWMutex, "fib.lock")
 	f.fibStrategyRWMutex.Lock()
 	defer f.fibStrategyRWMutex.Unlock()
-	verifMutating(&f.fibStrategyRWMutex, "fib.mut")
+	verifMutating(&f.fibStrategyRWMutex, "fib.batch")
+	defer verifYield("fib.batch-end")
 	fn(fibHashTableBatch{f})
 }
 
